@@ -34,20 +34,20 @@ type Violation struct {
 
 // Result is what one worker (shard) reports; results are merged by summing.
 type Result struct {
-	Evaluations    int64            `json:"evaluations"`
-	States         int64            `json:"states"`
-	Transitions    int64            `json:"transitions"`
-	Traces         int64            `json:"traces"`
-	Nontrivial     int64            `json:"nontrivial"`
-	Hist           map[string]int64 `json:"hist"`
-	Samples        []any            `json:"samples"`
-	Violations     []Violation      `json:"violations"`
-	ViolationCount int64            `json:"violation_count"`
-	Caps           []string         `json:"caps"`
-	Notes          []string         `json:"notes"`
-	Sets           map[string][]string `json:"sets"` // named string sets, merged by union (e.g. table cells seen)
-	Max            map[string]int64 `json:"max"`       // merged by max
-	KnownHits      map[string]int64 `json:"known_hits"` // known-finding key -> hits (never stored as violations)
+	Evaluations    int64               `json:"evaluations"`
+	States         int64               `json:"states"`
+	Transitions    int64               `json:"transitions"`
+	Traces         int64               `json:"traces"`
+	Nontrivial     int64               `json:"nontrivial"`
+	Hist           map[string]int64    `json:"hist"`
+	Samples        []any               `json:"samples"`
+	Violations     []Violation         `json:"violations"`
+	ViolationCount int64               `json:"violation_count"`
+	Caps           []string            `json:"caps"`
+	Notes          []string            `json:"notes"`
+	Sets           map[string][]string `json:"sets"`       // named string sets, merged by union (e.g. table cells seen)
+	Max            map[string]int64    `json:"max"`        // merged by max
+	KnownHits      map[string]int64    `json:"known_hits"` // known-finding key -> hits (never stored as violations)
 }
 
 func newResult() *Result {
@@ -110,7 +110,7 @@ func (c *Ctx) Note(msg string) {
 	}
 	c.R.Notes = append(c.R.Notes, msg)
 }
-func (c *Ctx) Count(k string) { c.R.Hist[k]++ }
+func (c *Ctx) Count(k string)           { c.R.Hist[k]++ }
 func (c *Ctx) CountN(k string, n int64) { c.R.Hist[k] += n }
 func (c *Ctx) SetAdd(set, elem string) {
 	if c.setIdx == nil {
@@ -187,7 +187,7 @@ type Check struct {
 
 var registry = map[string]*Check{}
 
-func Register(c *Check) { registry[c.ID] = c }
+func Register(c *Check)       { registry[c.ID] = c }
 func Lookup(id string) *Check { return registry[id] }
 func IDs() []string {
 	var ids []string
@@ -300,8 +300,9 @@ type knownEntry struct {
 }
 
 // known_findings.txt lines:
-//   known: property=<id> key=<canonical key> :: <what fails>
-//   fixed: property=<id> <commit> <what failed>
+//
+//	known: property=<id> key=<canonical key> :: <what fails>
+//	fixed: property=<id> <commit> <what failed>
 func loadKnown() []knownEntry {
 	b, err := os.ReadFile(filepath.Join(verifDir(), "known_findings.txt"))
 	if err != nil {
@@ -433,7 +434,7 @@ func CheckMain(id, tier string, workers int) int {
 					Detail: fmt.Sprintf("worker %d/%d died (%v) — unrecoverable fatal error in the code under test or harness:\n%s", i, workers, runErr, tail)})
 				return
 			}
-					merge(merged, &r)
+			merge(merged, &r)
 		}(i)
 	}
 	wg.Wait()
